@@ -69,6 +69,8 @@ type VerifGroup struct {
 	entries  []*verifEntry
 	ready    bool
 	stopped  bool
+	termSeen bool
+	termAsked bool
 	migrateErr error
 	// ghost log of what the group was asked to do
 	GetSyncCalls int
@@ -280,7 +282,12 @@ func (g *VerifGroup) Send(id interface{}, name fsm.EventName, args ...interface{
 	}
 	if g.isFinal(e.st.Status) {
 		// dropped; the real machine returns nil while its goroutine still runs, ErrTerminated afterwards
-		if zz.Bool("fsm.terminatedSeen") {
+		// (one choice per run: the goroutine has or has not exited yet)
+		if !g.termAsked {
+			g.termAsked = true
+			g.termSeen = zz.Bool("fsm.terminatedSeen")
+		}
+		if g.termSeen {
 			return statemachine.ErrTerminated
 		}
 		return nil
